@@ -24,7 +24,26 @@ func (s lockState) clone() lockState {
 	return c
 }
 
+// mayMode switches the analysis from "certainly held" (intersection at joins) to "possibly held" (union at joins).
+var mayMode bool
+
+func join(a, b lockState) lockState {
+	c := lockState{}
+	for k, v := range a {
+		c[k] = v
+	}
+	for k, v := range b {
+		if v > c[k] {
+			c[k] = v
+		}
+	}
+	return c
+}
+
 func meet(a, b lockState) lockState {
+	if mayMode {
+		return join(a, b)
+	}
 	c := lockState{}
 	for k, v := range a {
 		if w, ok := b[k]; ok {
@@ -55,6 +74,7 @@ type lockAccess struct {
 	Struct, Field, Func string
 	Write               bool
 	Held                int
+	MayHeld             int
 	InGo                bool
 	Line                int
 	File                string
@@ -378,7 +398,11 @@ func (w *walker) stmt(s ast.Stmt, st lockState) lockState {
 			// runs at return: a lock taken with a deferred unlock *before* this statement is still held then; one that is
 			// released explicitly is not.  Without tracking which is which, assume nothing.
 			sub := &walker{la: w.la, fn: w.fn, env: w.env, inGo: w.inGo}
-			sub.block(f.Body.List, lockState{})
+			if mayMode {
+				sub.block(f.Body.List, st.clone()) // whatever is held here may still be held at return
+			} else {
+				sub.block(f.Body.List, lockState{})
+			}
 		} else {
 			w.call(x.Call, st, true)
 		}
@@ -623,6 +647,50 @@ func genLocks(p *pkgInfo, out string) {
 		}
 	}
 	run(true)
+	must := la.accesses
+
+	// second pass: which locks are *possibly* held (union at joins, entry = union over call sites)
+	mayMode = true
+	for _, m := range methods {
+		la.entry[m] = lockState{}
+	}
+	for iter := 0; iter < 30; iter++ {
+		run(false)
+		changed := false
+		for _, m := range methods {
+			short := m[strings.Index(m, ".")+1:]
+			if isExported(short) {
+				continue
+			}
+			ns := lockState{}
+			for _, st := range la.callSeen[m] {
+				ns = join(ns, st)
+			}
+			if !sameState(ns, la.entry[m]) {
+				la.entry[m] = ns
+				changed = true
+			}
+		}
+		if !changed {
+			break
+		}
+		if iter == 29 {
+			fail("may-hold lock analysis did not reach a fixpoint")
+		}
+	}
+	run(true)
+	may := la.accesses
+	mayMode = false
+	if len(may) != len(must) {
+		fail("lock analysis: the two passes saw different accesses (%d vs %d)", len(must), len(may))
+	}
+	for i := range must {
+		if must[i].Line != may[i].Line || must[i].Field != may[i].Field || must[i].Func != may[i].Func {
+			fail("lock analysis: the two passes disagree on access %d", i)
+		}
+		must[i].MayHeld = may[i].Held
+	}
+	la.accesses = must
 
 	// field classes
 	writes := map[string]bool{}
@@ -633,8 +701,8 @@ func genLocks(p *pkgInfo, out string) {
 	}
 	var b strings.Builder
 	b.WriteString("namespace NLE.Gen\n\n")
-	b.WriteString("/-- One syntactic access to a field of the library's shared state. `held`: 0 = the struct's mutex is not known to be held, 1 = read lock, 2 = write lock. -/\n")
-	b.WriteString("structure LockAccess where\n  struct : String\n  field : String\n  fn : String\n  write : Bool\n  held : Nat\n  inGo : Bool\n  file : String\n  line : Nat\n  deriving Repr, DecidableEq\n\n")
+	b.WriteString("/-- One syntactic access to a field of the library's shared state. `held`: 0 = the struct's mutex is not known to be held, 1 = read lock, 2 = write lock (certainly held); `mayHeld`: the same for locks possibly held on some path. -/\n")
+	b.WriteString("structure LockAccess where\n  struct : String\n  field : String\n  fn : String\n  write : Bool\n  held : Nat\n  mayHeld : Nat\n  inGo : Bool\n  file : String\n  line : Nat\n  deriving Repr, DecidableEq\n\n")
 	b.WriteString("/-- Fields of the tracked structs: (struct, field, class) with class sync (atomic / sync types, safe by themselves), init (never written after construction), mutable. -/\n")
 	b.WriteString("def lockFields : List (String × String × String) := [\n")
 	var rows []string
@@ -683,7 +751,7 @@ func genLocks(p *pkgInfo, out string) {
 		if !writes[a.Struct+"."+a.Field] {
 			continue
 		}
-		rows = append(rows, fmt.Sprintf("  ⟨%s, %s, %s, %v, %d, %v, %s, %d⟩", leanStr(a.Struct), leanStr(a.Field), leanStr(a.Func), a.Write, a.Held, a.InGo, leanStr(a.File), a.Line))
+		rows = append(rows, fmt.Sprintf("  ⟨%s, %s, %s, %v, %d, %d, %v, %s, %d⟩", leanStr(a.Struct), leanStr(a.Field), leanStr(a.Func), a.Write, a.Held, a.MayHeld, a.InGo, leanStr(a.File), a.Line))
 	}
 	b.WriteString(strings.Join(rows, ",\n"))
 	b.WriteString("]\n\nend NLE.Gen\n")
